@@ -9,7 +9,7 @@ PROPS = {"C15": dict(
           "or crash interleaved at a package / commit hook, single storage / lock faults (error applied or not, crash before / after) "
           "and restarts; after every request a fresh witness on a copy of the stores must complete the upload mirror->pending. "
           "non-trivial = history with at least one 200 commit after a truncated/conflicting upload or after a restart, and at least one "
-          "commit at a mid-tile size; distinct = hash of the action/response trace; also: client retries after server-side failures, faults inside interleaved requests, scripted cut-commit prefix"),
+          "commit at a mid-tile size; distinct = hash of the action/response trace; also: client retries after server-side failures, faults inside interleaved requests, scripted cut-commit prefix; two equally busy logs growing in step; stale commit at the previous mirror size after an applied-but-failed lock write"),
     assumptions=["vfref's RFC 6962 tree and the harness' own tlog-tiles entry-bundle encoder are correct",
                  "torchwood.ProveSubtree / tlog.ProveTree are used only to build request bodies, never to judge",
                  "Ed25519 (stdlib) and the public torchwood cosignature verifier decide signature validity",
